@@ -148,6 +148,85 @@ def lookup_probe(uri, dirs, moddir, via, rel, notfiles=()):
         LK.os, TP.Template._compile_from_file, os.getcwd = saved
 
 
+def two_lookups(cfg):
+    """two TemplateLookups in one process, each with its own directories, serving the same URI with different content:
+    returns [(which lookup, rendered, expected, source file inside its own directory?)] for the sequence of requests"""
+    import os
+    import shutil
+    import tempfile
+    import time
+    from mako.lookup import TemplateLookup
+    base = tempfile.mkdtemp(prefix="c09two")
+    try:
+        lks, want = {}, {}
+        now = time.time()
+        for name in ("A", "B"):
+            root = os.path.join(base, name, "templates")
+            os.makedirs(root)
+            with open(os.path.join(root, "page.html"), "w") as f:
+                f.write("<%! who = '" + name + "' %>page of " + name + " ${who} <%include file='/part.html'/>")
+            with open(os.path.join(root, "part.html"), "w") as f:
+                f.write("part of " + name)
+            age = {"same": 100, "A-newer": 100 if name == "A" else 200, "B-newer": 200 if name == "A" else 100}[cfg["mtimes"]]
+            for fn in ("page.html", "part.html"):
+                os.utime(os.path.join(root, fn), (now - age, now - age))
+            moddir = None
+            if cfg["module_directory"] == "own":
+                moddir = os.path.join(base, name, "modules")
+            elif cfg["module_directory"] == "shared":
+                moddir = os.path.join(base, "modules")
+            lks[name] = (TemplateLookup([root], module_directory=moddir), root, moddir)
+            want[name] = "page of %s %s part of %s" % (name, name, name)
+        out = []
+        for name in cfg["order"]:
+            lk, root, moddir = lks[name]
+            if cfg.get("fresh_lookup_per_request"):
+                lk = TemplateLookup([root], module_directory=moddir)       # as a later request handler / worker would build it
+            try:
+                t = lk.get_template("/page.html")
+                got = t.render()
+                inside = os.path.realpath(t.filename).startswith(os.path.realpath(root) + os.sep)
+            except Exception as e:
+                got, inside = "raised %s: %s" % (type(e).__name__, e), True
+            out.append((name, got, want[name], inside))
+            if cfg["module_directory"] != "none" and cfg.get("age_modules"):
+                # the module files just written are made older than both sources' successors: nothing on disk is "newer"
+                for d, _s, files in os.walk(base):
+                    for fn in files:
+                        if fn.endswith(".py"):
+                            os.utime(os.path.join(d, fn), (now - 50, now - 50))
+        return out
+    finally:
+        shutil.rmtree(base, ignore_errors=True)
+
+
+def has_template_probe(uri, dirs, moddir, notfiles=()):
+    """real TemplateLookup.has_template with the adversarial file system of the symbolic C09 run"""
+    import types
+    import os
+    from mako import lookup as LK, template as TP
+
+    class P:
+        sep = "/"
+
+        @staticmethod
+        def isfile(p):
+            return p not in notfiles
+
+    class O:
+        path = P
+        sep = "/"
+
+    saved = (LK.os, TP.Template._compile_from_file, os.getcwd)
+    LK.os = O
+    TP.Template._compile_from_file = lambda self, path, filename: types.SimpleNamespace(render_body=lambda *a, **k: None, _modified_time=0)
+    os.getcwd = lambda: "/cwd"
+    try:
+        return LK.TemplateLookup(dirs, module_directory=moddir, filesystem_checks=False).has_template(uri)
+    finally:
+        LK.os, TP.Template._compile_from_file, os.getcwd = saved
+
+
 def filter_apply(which, text):
     from mako import filters
     fn = {"x": filters.xml_escape, "h": filters.html_escape, "u": filters.url_escape, "trim": filters.trim,
